@@ -38,7 +38,10 @@ MANIFEST = {
             'histories.'
             ' Blank and comment-only texts are loaded and executed on the'
             ' reused job in between, often after a stop request made whil'
-            'e it was idle.',
+            'e it was idle.'
+            ' Populations of 18-70 lights with loops left early; an unins'
+            'pected job is run beside the monitored one and queued jobs r'
+            'un twice.',
     'note': 'Trusted: equality of event logs / instruction fingerprints as the '
             'notion of "same result". Device state is reset between runs '
             '(replies to `get` are part of the environment, not of the job).',
